@@ -180,7 +180,7 @@ func main() {
 	if err := refbls.SelfTest(); err != nil {
 		run.Fatal("refbls self-test: %v", err)
 	}
-	run.Budget(75*time.Second, 9*time.Minute)
+	run.Budget(4*time.Minute, 15*time.Minute)
 	t0 := time.Now()
 	rm1 := new(big.Int).Sub(refbls.R, big.NewInt(1))
 
@@ -218,6 +218,15 @@ func main() {
 	torsion = []refbls.G1{t3}
 	data = [][]byte{material(32, 2, 0), material(45, 2, 1)}
 	tags = []string{"C17-tag-t", "C17-tag-u"}
+	{
+		factors = append(factors, big.NewInt(2), rm1)
+		t11, err := refbls.TorsionG1(11)
+		if err != nil {
+			run.Fatal("%v", err)
+		}
+		torsion = append(torsion, t11, refbls.CofactorPointG1())
+		kindNames = append(kindNames, "scaled-by-2", "scaled-by-r-1", "s+T11-outside-G1", "s+cofactor-point-outside-G1")
+	}
 	if run.Thorough() {
 		cPriv, c := gen(2)
 		addKey("c", c, cPriv, cPriv.PublicKey())
@@ -233,13 +242,6 @@ func main() {
 			run.Fatal("AggregateBLSPublicKeys: %v", err)
 		}
 		addKey("identity-as-aggregate-of-a-and-r-a", new(big.Int), nil, idAgg)
-		factors = append(factors, big.NewInt(2), rm1)
-		t11, err := refbls.TorsionG1(11)
-		if err != nil {
-			run.Fatal("%v", err)
-		}
-		torsion = append(torsion, t11, refbls.CofactorPointG1())
-		kindNames = append(kindNames, "scaled-by-2", "scaled-by-r-1", "s+T11-outside-G1", "s+cofactor-point-outside-G1")
 		data = append(data, []byte{})
 		tags = append(tags, "")
 	}
